@@ -20,11 +20,15 @@ def special_names():
     return names, sorted(set(names) | {"endfunction", "endmacro", "cpp_end_class"})
 
 
+def tup(n):
+    return "Tuple[" + ", ".join(["int"] * max(1, n)) + "]"
+
+
 PLACEHOLDER = ["a1", "b2", "c3", "d4"]
 
 
 def step_obligations(prefix, kinds, tier, maxd, maxc, symflags=False, free=False, symkw=False, symargs=True, alen=None,
-                     timeout=None, arities=None):
+                     timeout=None, arities=None, namelen=None, tl=1, dl=2):
     """symargs=False: argument texts are concrete placeholders (state-heavy family A); True: symbolic texts (family B)"""
     quick = tier == "quick"
     procs, special = special_names()
@@ -34,11 +38,13 @@ def step_obligations(prefix, kinds, tier, maxd, maxc, symflags=False, free=False
         if quick or not symargs:
             ars = ars[-1:]
         for na in ars:
-            al = alen or (1 if quick else 2)
+            al = alen or (2 if quick else 3)
+            nl = namelen or (2 if quick else 3)
             fam = "B(symbolic args)" if symargs else "A(state)"
             obs.append(vf.CH(f"{prefix} step {fam} kind={k} nargs={na} |defs|<={maxd} |classes|<={maxc}", "step.py",
-                             dict(KIND=k, MAXD=maxd, MAXC=maxc, NA=na if symargs else 0, CARGS=None if symargs else PLACEHOLDER[:na],
-                                  ALEN=al, CASES=(0, 1, 2) if not symargs else ((ki % 3,) if quick else (0, 1, 2)), SYMFLAGS=symflags, FREE=free, SYMKW=symkw, NAMELEN=24, SPECIAL=special),
+                             dict(KIND=k, MAXD=maxd, MAXC=maxc, NCP=(na * al) if symargs else 0, NA=na if symargs else 0, CARGS=None if symargs else PLACEHOLDER[:na],
+                                  ALEN=al, CASES=(0, 1, 2) if k != "@other" else (0,), SYMFLAGS=symflags, FREE=free, SYMKW=symkw, NAMELEN=nl, TL=tl, DL=dl, SPECIAL=special,
+                                  NT=tup(nl if k == "@other" else 1), FT=tup(3 + tl + dl if free else 1)),
                              timeout=timeout or (300 if quick else 1800), encodes=STEP_ENC,
                              symbolic="abstract pre-state sigma (shape of the definition and class stacks, each frame entry or none, "
                                       "pending declaration none/method/test), documented flag, letter case of the command name, "
@@ -47,7 +53,7 @@ def step_obligations(prefix, kinds, tier, maxd, maxc, symflags=False, free=False
                                       + (", kwargs flag of every open definition" if symkw else "")
                                       + (", the ten include_undocumented_* flags" if symflags else "")
                                       + (", strip patterns (opaque, via free regex shim), trigger string, doc text" if free else "")
-                                      + (", the command name itself (any string of <=24 chars that is not a processor name)" if k == "@other" else ""),
+                                      + (", the command name itself (any string of exactly NAMELEN code points that is not a processor name)" if k == "@other" else ""),
                              bound=f"|defs|<={maxd}, |classes|<={maxc}, "
                                    + (f"{na} argument texts of exactly {al} chars (no separators/quotes)" if symargs else f"{na} concrete placeholder arguments")
                                    + ", one step from an arbitrary state (covers histories of any length)"))
